@@ -50,6 +50,7 @@ type posArgs struct {
 	Chunk  int    `json:"chunk"`
 	Inv    bool   `json:"inv"`
 	Dup    bool   `json:"dup"`
+	Sparse int    `json:"sparse,omitempty"` // StackPointer is observed only after every n-th call (it is not a pure observer inside the library)
 }
 
 func stackString(levels []ref.Level) string {
@@ -172,9 +173,11 @@ func runDecoderPositions(w *run.W, a *posArgs) {
 			w.Violate("stack-index", sig, "after %c (token %d): StackIndex=%s, reference %s; input=%q", op, end, got, ws, a.Input)
 			return
 		}
-		if got := string(d.StackPointer()); got != want.Pointer {
-			w.Violate("stack-pointer", sig, "after %c (token %d): StackPointer=%q, reference %q; input=%q chunk=%d", op, end, got, want.Pointer, a.Input, a.Chunk)
-			return
+		if a.Sparse <= 0 || step%a.Sparse == a.Sparse-1 || ti == len(toks) {
+			if got := string(d.StackPointer()); got != want.Pointer {
+				w.Violate("stack-pointer", sig, "after %c (token %d): StackPointer=%q, reference %q; input=%q chunk=%d", op, end, got, want.Pointer, a.Input, a.Chunk)
+				return
+			}
 		}
 		w.Count("decoder_states_compared", 1)
 	}
@@ -185,8 +188,9 @@ func runDecoderPositions(w *run.W, a *posArgs) {
 // (1b) state after every Encoder call: replay the reference tokens into an Encoder
 
 type encArgs struct {
-	Input []byte `json:"input"` // a valid stream; its reference tokens are replayed
-	Mode  uint64 `json:"mode"`  // bit i set: write the value starting at token i with WriteValue
+	Input  []byte `json:"input"` // a valid stream; its reference tokens are replayed
+	Mode   uint64 `json:"mode"`  // bit i set: write the value starting at token i with WriteValue
+	Sparse int    `json:"sparse,omitempty"`
 }
 
 type limitedWriter struct{ buf bytes.Buffer }
@@ -304,9 +308,11 @@ func runEncoderPositions(w *run.W, a *encArgs) {
 			w.Violate("stack-index", sig, "after token %d: StackIndex=%s, reference %s; input=%q", end, got, ws, a.Input)
 			return
 		}
-		if got := string(e.StackPointer()); got != want.Pointer {
-			w.Violate("stack-pointer", sig, "after token %d: StackPointer=%q, reference %q; input=%q", end, got, want.Pointer, a.Input)
-			return
+		if a.Sparse <= 0 || ti%a.Sparse == 0 || ti == len(toks) {
+			if got := string(e.StackPointer()); got != want.Pointer {
+				w.Violate("stack-pointer", sig, "after token %d: StackPointer=%q, reference %q; input=%q", end, got, want.Pointer, a.Input)
+				return
+			}
 		}
 		w.Count("encoder_states_compared", 1)
 	}
@@ -800,9 +806,9 @@ func generate(w *run.W) {
 					inv = true // the pools contain ill-formed UTF-8 strings
 				}
 			}
-			w.Do("decoder-positions", &posArgs{Input: in, Script: scripts[r.IntN(len(scripts))], Chunk: []int{0, 1, 2, 7, 64}[r.IntN(5)], Inv: inv, Dup: r.IntN(4) == 0})
+			w.Do("decoder-positions", &posArgs{Input: in, Script: scripts[r.IntN(len(scripts))], Chunk: []int{0, 1, 2, 7, 64}[r.IntN(5)], Inv: inv, Dup: r.IntN(4) == 0, Sparse: []int{0, 0, 4, 1000}[r.IntN(4)]})
 			if _, ok := ref.StreamValid(in, ref.Opts{}); ok {
-				w.Do("encoder-positions", &encArgs{Input: in, Mode: r.Uint64() & r.Uint64()})
+				w.Do("encoder-positions", &encArgs{Input: in, Mode: r.Uint64() & r.Uint64(), Sparse: []int{0, 0, 5, 1000}[r.IntN(4)]})
 			}
 			// invalid: mutate 1-3 times
 			bad := in
